@@ -16,7 +16,7 @@ ENGINE = os.path.join(VERIF, 'engine')
 MODELS = os.path.join(VERIF, 'models')
 HARNESS = os.path.join(VERIF, 'harness')
 CLANG = 'clang++-14'
-CXXDEFS = ['-std=c++17', '-DNDEBUG', '-DONLY_C_LOCALE=1', '-DPISTACHE_VERIF_HOOKS',
+CXXDEFS = ['-std=c++17', '-DNDEBUG', '-DONLY_C_LOCALE=1',
            '-I' + os.path.join(REPO, 'include'), '-I' + os.path.join(REPO, 'subprojects/hinnant-date/include'),
            '-I' + os.path.join(REPO, '_build/include'), '-I' + os.path.join(VERIF, 'harness')]
 IRFLAGS = ['-fno-vectorize', '-fno-slp-vectorize', '-fno-unroll-loops', '-fno-discard-value-names', '-S', '-emit-llvm',
@@ -127,6 +127,7 @@ def cbmc_run(work, tag, files, defs, opts, timeout, memgb):
     cmd = ['cbmc'] + files + ['-I', MODELS, '-I', HARNESS, '-I', work] + ['-D%s=%s' % (k, v) if v is not None else '-D' + k for k, v in defs.items()]
     cmd += opts + ['--json-ui', '--trace', '--stop-on-fail']
     shcmd = 'ulimit -v %d; exec /usr/bin/time -o %s -f "%%M %%e" %s > %s 2>&1' % (int(memgb * 1024 * 1024), tm, ' '.join("'%s'" % c for c in cmd), out)
+    open(os.path.join(work, tag + '.cmd'), 'w').write(' '.join("'%s'" % c for c in cmd) + '\n')
     t0 = time.time()
     try:
         p = subprocess.run(['bash', '-c', shcmd], timeout=timeout)
@@ -531,7 +532,7 @@ def replay_record(native, spec, h, rec, work):
         exe = os.path.join(work, tag + '.prog')
         if not os.path.exists(exe):
             srcs = [os.path.join(VERIF, rp['program'])] + [x.replace('/repo/', REPO + '/') for x in rp.get('real', [])]
-            r = sh(['g++', '-O1', '-g', '-fsanitize=address,undefined', '-fno-sanitize=vptr', '-fno-sanitize-recover=undefined'] + CXXDEFS + ['-w'] + srcs + ['-o', exe, '-lpthread'])
+            r = sh(['g++', '-O1', '-g', '-fsanitize=address,undefined', '-fno-sanitize=vptr', '-fno-sanitize-recover=undefined'] + CXXDEFS + rp.get('cflags', []) + ['-w'] + srcs + ['-o', exe, '-lpthread'])
             if r.returncode: raise Broken('replay program failed to build:\n%s' % r.stdout[-2000:])
         env = dict(os.environ); env['VP_REPLAY'] = rf; env['ASAN_OPTIONS'] = 'detect_leaks=0:exitcode=66'; env['UBSAN_OPTIONS'] = 'halt_on_error=1:exitcode=67'
         args = [str(defs.get(k, '')) for k in rp.get('args', [])]
